@@ -137,6 +137,10 @@ impl Default for Cfg {
     }
 }
 
+/// Scheduling points a thread may still pass inside a `nokill` section once the run is ending
+/// (the segment world allows a call 10^8 accesses before it calls it unbounded; same scale here).
+pub const NOKILL_OVERRUN: u64 = 120_000_000;
+
 /// Long step delays ("preemptions") a thread can suffer at a scheduling point, in ns.
 pub const DELAYS_NS: [i64; 8] = [
     10_000,
@@ -295,6 +299,8 @@ pub(crate) struct Th {
     finish_code: u8,
     /// depth of sections through which a kill cannot unwind (extern "C" frames)
     nokill: u32,
+    /// scheduling points passed inside a `nokill` section after the thread was told to die
+    overrun: u64,
 }
 
 pub(crate) struct ProcCounters {
@@ -307,6 +313,8 @@ pub struct State {
     pub(crate) th: Vec<Th>,
     done_tx: std::sync::mpsc::Sender<()>,
     jobs_started: u64,
+    /// threads given up inside a call that cannot be unwound and never returned
+    abandoned: u64,
     current: Option<Tid>,
     rng: u64,
     decisions: Vec<u32>,
@@ -689,6 +697,7 @@ impl State {
             joiners: Vec::new(),
             finish_code: 0,
             nokill: 0,
+            overrun: 0,
         });
         self.th.len() - 1
     }
@@ -819,6 +828,38 @@ pub(crate) fn yield_point(kind: EvKind, tag: &'static str, a: u64) -> bool {
         s.budget_exhausted = true;
         s.log(me, EvKind::Budget, "", 0, 0, 0);
         s.begin_shutdown(None);
+    }
+    if s.ending && s.th[me].kill && s.th[me].nokill > 0 {
+        // the run is over and this thread sits in a call that cannot be unwound (foreign frames):
+        // it gets the longest any bounded call can take, then it is given up (the run is reported
+        // as hung) and its OS thread parked for good
+        s.th[me].overrun += 1;
+        if s.th[me].overrun > NOKILL_OVERRUN {
+            s.abandoned += 1;
+            s.log(me, EvKind::Budget, "abandoned", 0, 0, 0);
+            s.th[me].st = St::Finished;
+            s.th[me].dead = true;
+            s.th[me].finish_code = 3;
+            let js = std::mem::take(&mut s.th[me].joiners);
+            for j in js {
+                s.make_runnable(j);
+            }
+            match s.pick_next(None) {
+                Some(n) => {
+                    s.current = Some(n);
+                    s.th[n].cv.notify_one();
+                }
+                None => {
+                    s.current = None;
+                    s.all_done = true;
+                    sh.ctl.notify_all();
+                }
+            }
+            drop(s);
+            loop {
+                std::thread::park();
+            }
+        }
     }
     if !(kind == EvKind::Point && (std::ptr::eq(tag, TAG_LOAD) || std::ptr::eq(tag, TAG_STORE))) {
         s.log(me, kind, tag, a, 0, 0);
@@ -1360,6 +1401,7 @@ pub fn run(spec: RunSpec) -> RunReport {
         th: Vec::new(),
         done_tx,
         jobs_started: 0,
+        abandoned: 0,
         current: None,
         rng,
         decisions: Vec::new(),
@@ -1447,8 +1489,14 @@ pub fn run(spec: RunSpec) -> RunReport {
     let mut rep = RunReport { hung, ..Default::default() };
     if !hung {
         // wait until every simulated thread body has fully returned to the pool
-        let n = sh.lock().jobs_started;
-        for _ in 0..n {
+        let (n, gone) = {
+            let s = sh.lock();
+            (s.jobs_started, s.abandoned)
+        };
+        if gone > 0 {
+            rep.hung = true;
+        }
+        for _ in 0..n.saturating_sub(gone) {
             if done_rx.recv_timeout(spec.watchdog).is_err() {
                 rep.hung = true;
                 break;
